@@ -206,6 +206,14 @@ func (e *env) checkEventStream(events []obs, opt streamOpts) {
 				bad++
 			}
 		}
+		// heartbeats that peers send to announce themselves are not part of the tagged sequence
+		tagged := s.frames[:0:0]
+		for _, o := range s.frames {
+			if o.fr.GetMessage().GetID() != 0 {
+				tagged = append(tagged, o)
+			}
+		}
+		s.frames = tagged
 		for k, o := range s.frames {
 			wr, idx, ok := frameTag(o, l.v2)
 			if !ok {
@@ -456,7 +464,9 @@ func c10Body() func(h []dsim.Rec) {
 	if dsim.Choose(3) == 2 {
 		dsim.EnableStalls(1 + dsim.Choose(20))
 	}
+	cfg.srEnable = dsim.Choose(3) == 2
 	e := newEnv(cfg)
+	e.peerAPHeartbeats = cfg.srEnable && cfg.dialectKind == 0 && cfg.inKey == nil
 	e.w.ChunkMode = dsim.Choose(3)
 	e.w.SendBuf = dsim.Pick(1<<16, 4096, 300)
 	neps := 1 + dsim.Choose(3)
